@@ -45,6 +45,8 @@ RULES = [("strobe_rs::", 66), ("byteorder::", 26), ("keccak::f1600", 73), ("=mem
 
 
 RULES_LONG = [("strobe_rs::", 172)] + RULES
+# fault harnesses: any loop of the adss crate itself may run over a whole fixed-size field (MAC_LENGTH = 64)
+RULES_ADSS = [("adss::", 66)] + RULES
 
 
 def K(name, harness=None, cap=600, tier="q", mode="func", **kw):
@@ -490,12 +492,12 @@ def c05(tier, seed):
                     cs.append({"kind": "adss_scenario", "m": v["m"].hex(), "r": v["r"].hex(), "t": t, "n_shares": n, "fault_lo": 0, "fault_hi": 4,
                                "fault_bytes": n.to_bytes(4, "little").hex(), "must_reject": True})
             return cs
-        obs.append(K("c16b::c05_fault_" + name, tier=q, cap=2400, mem=24, must_cover=["rejected"],
+        obs.append(K("c16b::c05_fault_" + name, tier=q, cap=2400, mem=24, must_cover=["rejected"], unwindset=RULES_ADSS,
                      claim="the %s field of the ciphertext-supplying share replaced by arbitrary different content: recovery always returns an error" % name,
                      bounds="honest threshold-1 sharing of 2-byte message and coins; the whole field arbitrary (subsumes every bit/byte fault); threshold fault: the Shamir layer returns an arbitrary key; C/D/J faults: it returns the honest key (single-field fault; with a chosen key and a matching tag an attacker presents his own consistent sharing); altered x / y only change the key and are covered by c05_any_interpolated_key",
                      stubs=ADSS + ["Sharks::recover -> arbitrary key (threshold) / the honest key K||0 from the log (C, D, J)", "faulty share built through the cfg(kani) hook adss::Share::verif_from_parts"],
                      functions=["adss::recover", "adss::Commune::verify"], to_case=tc))
-    obs.append(K("c16b::c05_any_interpolated_key", tier="q", cap=2400, mem=24, must_cover=["rejected", "accepted with the original message"],
+    obs.append(K("c16b::c05_any_interpolated_key", tier="q", cap=2400, mem=24, must_cover=["rejected", "accepted with the original message"], unwindset=RULES_ADSS,
                  claim="whatever key the Shamir layer hands back (any mixture of foreign, altered, repeated, surplus points): the result is an error or exactly the message of the first share's sharing",
                  bounds="honest threshold-2 sharing of 2-byte message/coins; interpolated key = arbitrary 24 bytes or error", stubs=ADSS + ["Sharks::recover -> arbitrary Ok(24 bytes) / Err"],
                  functions=["adss::recover", "adss::Commune::verify"],
